@@ -8,6 +8,20 @@
 //!                                      list of buffers it hands to the sink in a fault-free run
 //!   bg    maxbuf script ops seed frames  bgzf::io::Writer under the script; `frames` are the
 //!                                      frames of the fault-free run (opaque to the model)
+//!   mt    pool script ops seed frames lifo  bgzf::io::MultithreadedWriter (ops W<n>/F, then
+//!                                      finish()) on a pool of `pool` threads under the script; the
+//!                                      model (NV.Sinks.Mt = the ticket pipeline NV.Io.Sched over
+//!                                      this property's sink) runs a FIFO or a LIFO schedule, the
+//!                                      implementation whatever schedule the OS produces
+//!   fob   fmt ending seed script ops frames  a format writer over bgzf::io::Writer under the script;
+//!                                      `ops` = the write_all/flush calls each explicit operation
+//!                                      makes on the BGZF writer (recorded by a logging `Write`
+//!                                      between the two layers for bam/bcf/samgz/vcfgz; the payload
+//!                                      length for csi/tbi, whose BGZF layer is private), ending
+//!                                      with T (try_finish) or X (finish)
+//!   cram  seed script ops              cram::io::Writer under the script; `ops` = lengths of the
+//!                                      buffers of each explicit operation; obs carries the number
+//!                                      of bytes accepted instead of the bytes
 //!   obs = per-op results | number of inner calls | sink bytes
 //! Implementation-only oracles (obs "-"):
 //!   sweep fmt ending seed kind         Fail(kind) at every inner call k < N (sampled if N > 200)
@@ -1510,6 +1524,481 @@ fn run_bops(ops: &[BOp], seed: u64, script: Vec<Fault>) -> RunOut {
     }
 }
 
+// ---------------------------------------------------------------------------------------------
+// L2: the multithreaded writer, format writers over BGZF, CRAM
+
+/// one life of a bgzf::io::MultithreadedWriter driven by explicit ops, then finish(); runs on the
+/// private 3-thread pool under the watchdog
+fn run_mt_bops(ops: Vec<BOp>, seed: u64, script: Vec<Fault>) -> Option<RunOut> {
+    if MT_HUNG.load(Ordering::SeqCst) {
+        return None;
+    }
+    let _g = MT_LOCK.lock().unwrap_or_else(|e| e.into_inner());
+    let pool = MT_POOL.get_or_init(|| rayon::ThreadPoolBuilder::new().num_threads(3).build().unwrap());
+    let (tx, rx) = mpsc::channel();
+    pool.spawn(move || {
+        let total: usize = ops.iter().map(|o| if let BOp::W(n) = o { *n } else { 0 }).sum();
+        let data = pattern(seed, total);
+        let sink = TSink::new(script, false);
+        let mut tr = Tr {
+            sink: sink.clone(),
+            results: vec![],
+            marks: vec![],
+        };
+        let s2 = sink.clone();
+        let out = guarded(AssertUnwindSafe(|| {
+            let tr = &mut tr;
+            let mut w = bgzf::io::MultithreadedWriter::new(s2);
+            let mut at = 0;
+            for o in &ops {
+                match o {
+                    BOp::W(n) => {
+                        let buf = &data[at..at + n];
+                        at += n;
+                        op!(tr, w.write_all(buf));
+                    }
+                    _ => op!(tr, w.flush()),
+                }
+            }
+            op!(tr, w.finish().map(|_| ()));
+        }));
+        let st = sink.inner.0.lock().unwrap();
+        let _ = tx.send(RunOut {
+            results: tr.results,
+            marks: tr.marks,
+            bytes: st.bytes.clone(),
+            calls: st.write_calls + st.flush_calls,
+            failures: st.failures_injected,
+            panicked: match out {
+                Outcome::Done(()) => None,
+                Outcome::Panicked(m) => Some(m),
+            },
+            log: vec![],
+        });
+    });
+    match rx.recv_timeout(Duration::from_secs(20)) {
+        Ok(o) => Some(o),
+        Err(_) => {
+            MT_HUNG.store(true, Ordering::SeqCst);
+            None
+        }
+    }
+}
+
+/// a call made by a format layer on the BGZF writer below it
+#[derive(Clone, Copy, Debug, PartialEq)]
+enum LCall {
+    WA(usize),
+    W(usize),
+    FL,
+}
+
+/// `Write` placed between a format writer and the BGZF writer: records the calls, forwards them
+struct LogW<W: Write> {
+    inner: W,
+    log: Arc<Mutex<Vec<LCall>>>,
+}
+
+impl<W: Write> Write for LogW<W> {
+    fn write(&mut self, buf: &[u8]) -> io::Result<usize> {
+        self.log.lock().unwrap().push(LCall::W(buf.len()));
+        self.inner.write(buf)
+    }
+    fn write_all(&mut self, buf: &[u8]) -> io::Result<()> {
+        self.log.lock().unwrap().push(LCall::WA(buf.len()));
+        self.inner.write_all(buf)
+    }
+    fn flush(&mut self) -> io::Result<()> {
+        self.log.lock().unwrap().push(LCall::FL);
+        self.inner.flush()
+    }
+}
+
+const FOB_FORMATS: &[&str] = &["bam", "bcf", "samgz", "vcfgz", "csi", "tbi"];
+
+/// one life of a format writer over bgzf::io::Writer over the sink; `cm` receives the length of
+/// the call log after each explicit operation
+fn drive_fob(fmt: &str, ending: &str, fx: &Fx, sink: TSink, tr: &mut Tr, log: &Arc<Mutex<Vec<LCall>>>, cm: &mut Vec<usize>) {
+    macro_rules! fop {
+        ($e:expr) => {{
+            let ok = tr.op(|| $e);
+            cm.push(log.lock().unwrap().len());
+            if !ok {
+                return;
+            }
+        }};
+    }
+    let lw = |sink: TSink| LogW {
+        inner: bgzf::io::Writer::new(sink),
+        log: log.clone(),
+    };
+    match (fmt, fx) {
+        ("bam", Fx::Sam(h, recs)) => {
+            use sam::alignment::io::Write as _;
+            let mut w = bam::io::Writer::from(lw(sink));
+            fop!(w.write_header(h));
+            for r in recs {
+                fop!(w.write_alignment_record(h, r));
+            }
+            match ending {
+                "X" => fop!(w.into_inner().inner.finish().map(|_| ())),
+                _ => fop!(w.get_mut().inner.try_finish()),
+            }
+        }
+        ("samgz", Fx::Sam(h, recs)) => {
+            use sam::alignment::io::Write as _;
+            let mut w = sam::io::Writer::new(lw(sink));
+            fop!(w.write_header(h));
+            for r in recs {
+                fop!(w.write_alignment_record(h, r));
+            }
+            match ending {
+                "X" => fop!(w.into_inner().inner.finish().map(|_| ())),
+                _ => fop!(w.get_mut().inner.try_finish()),
+            }
+        }
+        ("bcf", Fx::Vcf(h, recs)) => {
+            use vcf::variant::io::Write as _;
+            let mut w = bcf::io::Writer::from(lw(sink));
+            fop!(w.write_header(h));
+            for r in recs {
+                fop!(w.write_variant_record(h, r));
+            }
+            match ending {
+                "X" => fop!(w.into_inner().inner.finish().map(|_| ())),
+                _ => fop!(w.get_mut().inner.try_finish()),
+            }
+        }
+        ("vcfgz", Fx::Vcf(h, recs)) => {
+            use vcf::variant::io::Write as _;
+            let mut w = vcf::io::Writer::new(lw(sink));
+            fop!(w.write_header(h));
+            for r in recs {
+                fop!(w.write_variant_record(h, r));
+            }
+            match ending {
+                "X" => fop!(w.into_inner().inner.finish().map(|_| ())),
+                _ => fop!(w.get_mut().inner.try_finish()),
+            }
+        }
+        ("csi", Fx::Csi(ix)) => {
+            let mut w = csi::io::Writer::new(sink);
+            fop!(w.write_index(ix));
+            match ending {
+                "X" => fop!(w.into_inner().finish().map(|_| ())),
+                _ => fop!(w.get_mut().try_finish()),
+            }
+        }
+        ("tbi", Fx::Tbi(ix)) => {
+            let mut w = tabix::io::Writer::new(sink);
+            fop!(w.write_index(ix));
+            match ending {
+                "X" => fop!(w.into_inner().finish().map(|_| ())),
+                _ => fop!(w.try_finish()),
+            }
+        }
+        _ => panic!("drive_fob {fmt}"),
+    }
+}
+
+/// (life, calls of each explicit operation on the BGZF writer)
+fn run_fob_life(fmt: &str, ending: &str, fx: &Fx, script: Vec<Fault>) -> (RunOut, Vec<Vec<LCall>>) {
+    let sink = TSink::new(script, false);
+    let mut tr = Tr {
+        sink: sink.clone(),
+        results: vec![],
+        marks: vec![],
+    };
+    let log = Arc::new(Mutex::new(Vec::new()));
+    let mut cm = Vec::new();
+    let s2 = sink.clone();
+    let out = guarded(AssertUnwindSafe(|| drive_fob(fmt, ending, fx, s2, &mut tr, &log, &mut cm)));
+    let st = sink.inner.0.lock().unwrap();
+    let log = log.lock().unwrap().clone();
+    let mut per_op = Vec::new();
+    let mut at = 0;
+    for m in cm {
+        per_op.push(log[at..m].to_vec());
+        at = m;
+    }
+    (
+        RunOut {
+            results: tr.results,
+            marks: tr.marks,
+            bytes: st.bytes.clone(),
+            calls: st.write_calls + st.flush_calls,
+            failures: st.failures_injected,
+            panicked: match out {
+                Outcome::Done(()) => None,
+                Outcome::Panicked(m) => Some(m),
+            },
+            log: vec![],
+        },
+        per_op,
+    )
+}
+
+/// the `ops` argument of a fob case from a fault-free life; None if the format layer made a call
+/// the model has no operation for (a bare `write`)
+fn fob_ops(fmt: &str, ending: &str, rf: &RunOut, per_op: &[Vec<LCall>]) -> Option<String> {
+    let mut ops: Vec<String> = Vec::new();
+    let n = per_op.len();
+    for (i, calls) in per_op.iter().enumerate() {
+        if i + 1 == n {
+            ops.push(ending.to_string());
+            break;
+        }
+        if matches!(fmt, "csi" | "tbi") {
+            // the BGZF layer is private: the operation is represented by one write_all of the
+            // whole payload (c14_bgzf_stream_of_concatenation: only the sum matters)
+            let mut data = Vec::new();
+            bgzf::io::Reader::new(&rf.bytes[..]).read_to_end(&mut data).ok()?;
+            ops.push(format!("W{}", data.len()));
+            continue;
+        }
+        let mut v = Vec::new();
+        for c in calls {
+            match c {
+                LCall::WA(k) => v.push(format!("W{k}")),
+                LCall::FL => v.push("F".to_string()),
+                LCall::W(_) => return None,
+            }
+        }
+        ops.push(if v.is_empty() { "-".to_string() } else { v.join(",") });
+    }
+    Some(ops.join(";"))
+}
+
+fn fmt_frames(frames: &[Vec<u8>]) -> String {
+    if frames.is_empty() { "_".to_string() } else { frames.iter().map(|f| hex(f)).collect::<Vec<_>>().join(",") }
+}
+
+/// one life of the CRAM writer with the buffers it hands to the sink, per explicit operation
+fn cram_ops(rf: &Reference) -> String {
+    let mut out = Vec::new();
+    let mut at = 0;
+    for &m in &rf.marks {
+        let v: Vec<String> = rf.log[at..m]
+            .iter()
+            .map(|c| match c {
+                Some(b) => b.len().to_string(),
+                None => "FL".to_string(),
+            })
+            .collect();
+        out.push(if v.is_empty() { "-".to_string() } else { v.join(",") });
+        at = m;
+    }
+    out.join(";")
+}
+
+fn gen_deepen(rng: &mut Rng, thorough: bool, w: &mut CaseWriter) {
+    let scale = if thorough { 10 } else { 1 };
+    // --- L2: the multithreaded writer
+    for i in 0..60 * scale {
+        let nops = rng.range(0, 5);
+        let mut ops = Vec::new();
+        let big = i % 6 == 0;
+        for j in 0..nops {
+            ops.push(if rng.chance(1, 5) {
+                BOp::F
+            } else if big && j == 0 {
+                BOp::W(*rng.pick(&[MAX_BUF_SIZE - 1, MAX_BUF_SIZE, MAX_BUF_SIZE + 1, 2 * MAX_BUF_SIZE, 3 * MAX_BUF_SIZE + 7]))
+            } else {
+                BOp::W(rng.below(60) as usize)
+            });
+        }
+        let seed = rng.next() >> 8;
+        let Some(rf) = run_mt_bops(ops.clone(), seed, vec![]) else {
+            w.push("sweep", vec!["mt".into(), "M".into(), seed.to_string(), "2".into()]);
+            continue;
+        };
+        let frames = data_frames(&rf.bytes);
+        let n = rf.calls + 2;
+        let sc = match i % 8 {
+            0 => vec![],
+            1 => {
+                // a failure at a uniformly chosen call of the fault-free life
+                let mut v = vec![Fault::Full; rng.below(rf.calls as u64) as usize];
+                v.push(Fault::Fail(code_kind(*rng.pick(INJECT))));
+                v
+            }
+            _ => {
+                let sl = rng.below(n as u64 + 1) as usize;
+                gen_script(rng, sl, i % 2 == 0)
+            }
+        };
+        w.push(
+            "mt",
+            vec![
+                "3".into(),
+                fmt_script(&sc),
+                fmt_bops(&ops),
+                seed.to_string(),
+                fmt_frames(&frames),
+                (i % 2).to_string(),
+            ],
+        );
+    }
+    // --- L2: format writers over the BGZF writer
+    for round in 0..(2 * scale) {
+        for fmt in FOB_FORMATS {
+            for ending in ["T", "X"] {
+                let mut seed = rng.next() >> 8;
+                let big = round == 0 && ending == "T" && HAS_BIG.contains(fmt);
+                seed -= seed % 7;
+                if !big {
+                    seed += 1 + rng.below(6);
+                }
+                let fx = fixture(fmt, seed);
+                let (rf, per_op) = run_fob_life(fmt, ending, &fx, vec![]);
+                if rf.panicked.is_some() || rf.first_err().is_some() {
+                    w.push("sweep", vec![fmt.to_string(), ending.to_string(), seed.to_string(), "2".into()]);
+                    continue;
+                }
+                let Some(ops) = fob_ops(fmt, ending, &rf, &per_op) else {
+                    continue;
+                };
+                let frames = fmt_frames(&data_frames(&rf.bytes));
+                if ops.len() + frames.len() > 400_000 {
+                    continue;
+                }
+                let n = rf.calls;
+                let mut scripts: Vec<Vec<Fault>> = Vec::new();
+                if n <= 45 && round < 2 {
+                    // everything fits the staging buffer: the sink is only touched by the finishing
+                    // call; a failure at EVERY call made during try_finish / finish
+                    let kind = code_kind(INJECT[(round + n) % INJECT.len()]);
+                    for k in 0..n {
+                        let mut v = vec![Fault::Full; k];
+                        v.push(Fault::Fail(kind));
+                        scripts.push(v);
+                    }
+                } else {
+                    for _ in 0..3 {
+                        let mut v = vec![Fault::Full; rng.below(n as u64) as usize];
+                        v.push(Fault::Fail(code_kind(*rng.pick(INJECT))));
+                        scripts.push(v);
+                    }
+                }
+                scripts.push(vec![]);
+                for j in 0..3 {
+                    let sl = rng.below(n as u64 + 3) as usize;
+                    scripts.push(gen_script(rng, sl, j != 0));
+                }
+                for sc in scripts {
+                    w.push(
+                        "fob",
+                        vec![fmt.to_string(), ending.to_string(), seed.to_string(), fmt_script(&sc), ops.clone(), frames.clone()],
+                    );
+                }
+            }
+        }
+    }
+    // --- L2: the CRAM writer's use of its sink
+    for _ in 0..(4 * scale) {
+        let seed = (rng.next() >> 8) | 1;
+        let seed = if seed % 7 == 0 { seed + 2 } else { seed };
+        let fx = Arc::new(fixture("cram", seed));
+        let Ok(rf) = reference("cram", "C", &fx, true) else {
+            w.push("sweep", vec!["cram".into(), "C".into(), seed.to_string(), "2".into()]);
+            continue;
+        };
+        let ops = cram_ops(&rf);
+        if ops.contains("FL") || ops.len() > 20000 {
+            continue;
+        }
+        let n = rf.n_calls;
+        for j in 0..6 {
+            let sc = match j {
+                0 => vec![],
+                1 | 2 => {
+                    let mut v = vec![Fault::Full; rng.below(n as u64) as usize];
+                    v.push(Fault::Fail(code_kind(*rng.pick(INJECT))));
+                    v
+                }
+                _ => {
+                    let sl = rng.below(n as u64 + 3) as usize;
+                    gen_script(rng, sl, j % 2 == 0)
+                }
+            };
+            w.push("cram", vec![seed.to_string(), fmt_script(&sc), ops.clone()]);
+        }
+    }
+}
+
+fn run_mtl(c: &Case) -> Obs {
+    let script = parse_script(&c.args[1]);
+    let ops = parse_bops(&c.args[2]);
+    let seed = c.u(3);
+    let Some(out) = run_mt_bops(ops.clone(), seed, script.clone()) else {
+        return Obs::fail("-", "mt-finish-hang", format!("ops={} script={}", c.args[2], c.args[1]));
+    };
+    if let Some(p) = &out.panicked {
+        return Obs::fail("Panic", "mt-panic-on-sink-error", p);
+    }
+    let Some(rf) = run_mt_bops(ops.clone(), seed, vec![]) else {
+        return Obs::fail("-", "mt-finish-hang", "fault-free run");
+    };
+    // which call reports the error depends on the schedule; that one does, and which error, not
+    let res = match out.first_err() {
+        None => "Ok".to_string(),
+        Some(ch) => format!("E{}", kind_code(*ch.last().unwrap())),
+    };
+    let obs = format!("{res}|calls={}|{}", out.calls, fmt_bytes(&out.bytes));
+    let v = verdict_scripted(&script, &out, &rf.bytes, "M").map_err(|(t, d)| (format!("mt-{t}"), d));
+    Obs::ok(obs, !script.is_empty() && !ops.is_empty()).with_verdict(v)
+}
+
+fn run_fob(c: &Case) -> Obs {
+    let (fmt, ending, seed) = (c.args[0].as_str(), c.args[1].as_str(), c.u(2));
+    let script = parse_script(&c.args[3]);
+    let fx = fixture(fmt, seed);
+    let (out, _) = run_fob_life(fmt, ending, &fx, script.clone());
+    if let Some(p) = &out.panicked {
+        return Obs::fail("Panic", &format!("{fmt}-panic-on-sink-error"), p);
+    }
+    let (rf, _) = run_fob_life(fmt, ending, &fx, vec![]);
+    let mut v = verdict_scripted(&script, &out, &rf.bytes, ending).map_err(|(t, d)| (format!("{fmt}-{t}"), d));
+    // the staging-buffer case: a consumed failure must be returned by the finishing call itself
+    // (c14_small_file_error_at_finish)
+    if v.is_ok() && out.failures > 0 && rf.calls <= 45 {
+        let real = script.iter().any(|f| matches!(f, Fault::Fail(k) if *k != io::ErrorKind::Interrupted));
+        let n_ops = rf.results.len();
+        if real && !(out.results.len() == n_ops && out.results[n_ops - 1].is_err()) {
+            v = Err((
+                format!("{fmt}-finish-error-not-reported-by-finish"),
+                format!("ending={ending} results={}", out.fmt_results()),
+            ));
+        }
+    }
+    Obs::ok(obs_of(&out), !script.is_empty()).with_verdict(v)
+}
+
+fn run_cram(c: &Case) -> Obs {
+    let seed = c.u(0);
+    let script = parse_script(&c.args[1]);
+    let fx = fixture("cram", seed);
+    let out = run_plain("cram", "C", &fx, script.clone(), false);
+    if let Some(p) = &out.panicked {
+        return Obs::fail("Panic", "cram-panic-on-sink-error", p);
+    }
+    let want_len: usize = c.args[2]
+        .split(';')
+        .flat_map(|op| op.split(','))
+        .filter_map(|t| t.parse::<usize>().ok())
+        .sum();
+    let real = script.iter().any(|f| matches!(f, Fault::Fail(k) if *k != io::ErrorKind::Interrupted));
+    let v = if !real && (out.first_err().is_some() || out.bytes.len() != want_len) {
+        Err(("cram-short-write-corrupts".to_string(), format!("results={} bytes={}", out.fmt_results(), out.bytes.len())))
+    } else if out.failures > 0 && out.first_err().is_none() && real {
+        Err(("cram-sink-error-swallowed".to_string(), format!("results={}", out.fmt_results())))
+    } else {
+        Ok(())
+    };
+    let obs = format!("{}|calls={}|len={}", out.fmt_results(), out.calls, out.bytes.len());
+    Obs::ok(obs, !script.is_empty()).with_verdict(v)
+}
+
 fn generate(rng: &mut Rng, tier: &str, w: &mut CaseWriter) {
     let thorough = tier == "thorough";
     let scale = if thorough { 12 } else { 1 };
@@ -1611,6 +2100,8 @@ fn generate(rng: &mut Rng, tier: &str, w: &mut CaseWriter) {
             vec![MAX_BUF_SIZE.to_string(), fmt_script(&sc), fmt_bops(&ops), seed.to_string(), frames_s],
         );
     }
+
+    gen_deepen(rng, thorough, w);
 
     // --- L3: failure at every inner call, for every writer of the quantifier
     let rounds = if thorough { 10 } else { 2 };
@@ -1905,6 +2396,9 @@ fn run(c: &Case) -> Obs {
         "lw" => run_lw(c),
         "lwfmt" => run_lwfmt(c),
         "bg" => run_bg(c),
+        "mt" => run_mtl(c),
+        "fob" => run_fob(c),
+        "cram" => run_cram(c),
         "sweep" => run_sweep(c),
         "short" => run_short(c),
         "mix" => run_mix(c),
